@@ -22,7 +22,7 @@ ID = 'C19'
 LEVEL = 'exploration'
 RUN_TIMEOUT = 120.0
 CHUNK = 50
-TIERS = {'quick': dict(runs=20000, budget_s=70), 'thorough': dict(runs=800000, budget_s=1500)}
+TIERS = {'quick': dict(runs=20000, budget_s=240), 'thorough': dict(runs=800000, budget_s=1500)}
 RULE = ('seeded histories of 3-60 pformat calls (with repetition; per-run knobs: length, clustering by '
         'type family, probability of clearing the dispatch cache between calls) over a fixed corpus of '
         '(value, settings) items covering every bundled printer, every lazily promoted by-name type, '
